@@ -260,6 +260,10 @@ class Builder:
                         ex.fact(CUT(x) == b)        # C04 rt_padded_string: b contains no 0xFF (domain), pad is all 0xFF
                     else:
                         ex.fact(n == L)
+                elif ins.padded:
+                    # padded with the length taken from a <length> field: written without padding (the length IS the
+                    # string's), read with the cut at the first 0xFF - the same C04 lemma with an empty pad
+                    ex.fact(CUT(x) == b)
             if tref.kind == "encoded_string":
                 ex.fact(z3.Length(ES(x)) == xn)
                 ex.fact(DS(ES(x)) == x)             # C08 decode_then_encode / C04: no 0x7E in the image (domain)
